@@ -22,8 +22,9 @@ if [ "$REPO" != "/repo" ]; then
 fi
 RACE=""
 case "$ID" in
-  C11|C14R|C10R) RACE="-race" ;;
+  C11) RACE="-race" ;;
 esac
+if [ -n "${VERIF_RACE:-}" ]; then RACE="-race"; fi
 BIN=bin/vcheck-$ID$RACE.$$
 if ! go build $MODFLAG $RACE -tags verif -o "$BIN" ./cmd/vcheck 2> logs/build-$ID.log; then
   if ! go version >/dev/null 2>&1; then
@@ -37,9 +38,16 @@ if [ ! -x "$BIN" ]; then
   exit 2
 fi
 LOG=logs/run-$ID-$TIER.log
+if [ -n "$RACE" ]; then
+  # exploration mode: reports go to files and are counted by the checker, not trusted to the exit code
+  rm -f logs/race-$ID.$$.*
+  export VERIF_RACE_LOG="$VERIF_DIR/logs/race-$ID.$$"
+  export GORACE="halt_on_error=0 log_path=$VERIF_RACE_LOG"
+fi
 VERIF_DIR="$VERIF_DIR" VERIF_REPO="$REPO" "$BIN" -check "$ID" -tier "$TIER" "$@" 2> >(tee "$LOG.stderr" >&2)
 RC=$?
 rm -f "$BIN"
+[ -n "$RACE" ] && rm -f logs/race-$ID.$$.*
 case $RC in
   0|1|3) exit $RC ;;
   *)
